@@ -1,7 +1,7 @@
 #!/bin/bash
 # sweep.sh "<ids>" "<seeds>" [tier]: run checks under several seeds; print one line per run (used in background runs)
 cd "$(dirname "$0")/.."
-ids=${1:-"C01 C02 C03 C04 C05 C06 C07 C08 C10 C11 C12 C13 C14 C15 C16 C17 C18 C20"}
+ids=${1:-"C01 C02 C03 C04 C05 C06 C07 C08 C09 C10 C11 C12 C13 C14 C15 C16 C17 C18 C19 C20"}
 seeds=${2:-"1 2 3"}
 tier=${3:-quick}
 for s in $seeds; do for p in $ids; do
